@@ -2,13 +2,13 @@ Require Import XRead.
 From Coq Require Import List Arith Bool Lia.
 Import ListNotations.
 
-Lemma scan_app e acc ia b1 b2 :
-  scan e acc ia (b1 ++ b2) = match scan e acc ia b1 with
-                             | Done t h rest => Done t h (rest ++ b2)
-                             | NeedMore e' acc' ia' => scan e' acc' ia' b2
-                             end.
+Lemma scan_app e acc ia eb b1 b2 :
+  scan e acc ia eb (b1 ++ b2) = match scan e acc ia eb b1 with
+                                | Done t h rest => Done t h (rest ++ b2)
+                                | NeedMore e' acc' ia' eb' => scan e' acc' ia' eb' b2
+                                end.
 Proof.
-  revert e acc ia. induction b1 as [|c b1 IH]; intros e acc ia; [reflexivity|].
+  revert e acc ia eb. induction b1 as [|c b1 IH]; intros e acc ia eb; [reflexivity|].
   cbn [app scan]. destruct e as [| |q].
   - destruct (is_quote c); [apply IH|]. destruct (c =? 92); [apply IH|].
     destruct (is_ws c); [|apply IH]. destruct ia; [reflexivity|apply IH].
@@ -23,20 +23,20 @@ Definition proj (r : res (option (list byte * bool * list byte * list (list byte
   | Ok (Some (t, h, p, cs)) => Ok (Some (t, h, p ++ concat cs))
   end.
 
-Lemma refill_flat : forall chunks e acc ia,
-  proj (refill e acc ia chunks) =
-  match scan e acc ia (concat chunks) with
+Lemma refill_flat : forall chunks e acc ia eb,
+  proj (refill e acc ia eb chunks) =
+  match scan e acc ia eb (concat chunks) with
   | Done t h rest => Ok (Some (t, h, rest))
-  | NeedMore e' acc' ia' => match e' with
+  | NeedMore e' acc' ia' _ => match e' with
                             | EQuote _ => Err
                             | _ => if ia' then Ok (Some (acc', false, [])) else Ok None
                             end
   end.
 Proof.
-  induction chunks as [|c cs IH]; intros e acc ia.
+  induction chunks as [|c cs IH]; intros e acc ia eb.
   - cbn. destruct e; try reflexivity; destruct ia; reflexivity.
   - cbn [refill concat]. rewrite scan_app.
-    destruct (scan e acc ia c) as [t h rest|e' acc' ia'] eqn:E; [reflexivity|].
+    destruct (scan e acc ia eb c) as [t h rest|e' acc' ia' eb'] eqn:E; [reflexivity|].
     apply IH.
 Qed.
 
@@ -44,7 +44,7 @@ Theorem next_flat pending chunks :
   proj (next pending chunks) = flat_next (pending ++ concat chunks).
 Proof.
   unfold next, flat_next. rewrite scan_app.
-  destruct (scan ENone [] false pending) as [t h rest|e acc ia] eqn:E; [reflexivity|].
+  destruct (scan ENone [] false false pending) as [t h rest|e acc ia eb] eqn:E; [reflexivity|].
   apply refill_flat.
 Qed.
 
